@@ -1,4 +1,710 @@
-import TbotVerif.Props.C04
+import TbotVerif.Props.C05Trace
+import TbotVerif.Props.ChanCase
+/-! C05 — "A registered death string aborts the read in which it completes, never earlier":
+    the monitor of `Spec.c05` against the model, for whole cases. -/
+
 namespace C05
+open Chan Spec C03
+
+/-! ### the monitor's registrations against the model's -/
+
+/-- what the monitor knows about a registration: its string is admissible, and as long as it
+    has not fired its string does not occur in the data received since the registration -/
+def Inv (r : Reg) : Prop := PatOk r.pat ∧ (r.fired = false → r.pat.search r.since = none)
+
+theorem span_split (s : Bytes) (a e : Nat) (h1 : a ≤ e) (h2 : e ≤ s.length) :
+    s = s.take a ++ (s.drop a).take (e - a) ++ (s.drop a).drop (e - a)
+      ∧ ((s.drop a).drop (e - a)).length = s.length - e := by
+  refine ⟨?_, ?_⟩
+  · rw [List.append_assoc, List.take_append_drop, List.take_append_drop]
+  · simp only [List.length_drop]; omega
+
+/-- if `_check` reported nothing, no registration that has not fired yet sees its string in the
+    extended history (this is completeness, read backwards) -/
+theorem no_new_occ (regs : List Reg) (b : Bytes) (r : Reg) (hr : r ∈ regs) (hinv : Inv r)
+    (hf : r.fired = false) (hc : (chk (regs.map toDeath) b).1 = none) :
+    r.pat.search (r.since ++ b) = none := by
+  cases hs : r.pat.search (r.since ++ b) with
+  | none => rfl
+  | some v =>
+    exfalso
+    obtain ⟨a, e⟩ := v
+    obtain ⟨hae, he, hocc⟩ := search_occ r.pat hinv.1 _ a e hs
+    obtain ⟨hsplit, hylen⟩ := span_split (r.since ++ b) a e hae he
+    generalize hu : ((r.since ++ b).drop a).take (e - a) = u at hocc hsplit
+    generalize hy : ((r.since ++ b).drop a).drop (e - a) = y at hsplit hylen
+    by_cases hcase : y.length < b.length
+    · have := chk_complete regs b r hr hinv.1 _ u y hocc hsplit hcase
+      rw [hc] at this; simp at this
+    · have hA := append_cancel_right hsplit (by omega : b.length ≤ y.length)
+      have hsome := occ_search r.pat hinv.1 u hocc ((r.since ++ b).take a) (y.take (y.length - b.length))
+      rw [← hA, hinv.2 hf] at hsome
+      simp at hsome
+
+/-- a reported match is one the monitor accepts -/
+theorem justified_of (regs : List Reg) (b : Bytes) (e : Nat) (m : Bytes) (hinv : ∀ r ∈ regs, Inv r)
+    (h : (chk (regs.map toDeath) b).1 = some (e, m)) : justified (regs.map (ext b)) e m = true := by
+  obtain ⟨r, hr, hexc, hocc⟩ := chk_sound regs b e m h
+  obtain ⟨ho, x, y, heq⟩ := hocc (hinv r hr).1
+  unfold justified
+  rw [List.any_eq_true]
+  refine ⟨ext b r, List.mem_map_of_mem hr, ?_⟩
+  have h1 : (ext b r).occurs = true := by
+    unfold Reg.occurs
+    rw [ext_since, ext_pat, heq]
+    exact occ_search r.pat (hinv r hr).1 m ho x y
+  simp only [ext_exc, hexc, beq_self_eq_true, h1, Bool.true_and, ext_pat]
+  cases hp : r.pat with
+  | lit s =>
+    rw [hp] at ho
+    simp only [beq_iff_eq]
+    exact occ_lit s m ho
+  | re _ => rfl
+
+theorem c05Walk_cons (res : OpRes) (d : Bytes) (ds : List Bytes) (regs : List Reg) :
+    c05Walk res (d :: ds) regs =
+      if (regs.map (ext d)).any (fun r => !r.fired && r.occurs) then
+        (ds.isEmpty && (match deathOf res with
+          | some (e, m) => justified (regs.map (ext d)) e m
+          | none => false),
+         (regs.map (ext d)).map fun r => { r with fired := r.fired || r.occurs })
+      else if ds.isEmpty then
+        ((match deathOf res with
+          | some (e, m) => justified (regs.map (ext d)) e m
+          | none => true), regs.map (ext d))
+      else c05Walk res ds (regs.map (ext d)) := rfl
+
+/-- **the monitor accepts every trace of the model** and stays in step with the rings -/
+theorem walk (res : OpRes) : ∀ (bs : List Bytes) (regs : List Reg) (ds' : List Death) (f : Option (Nat × Bytes)),
+    (∀ r ∈ regs, Inv r) → DTrace (regs.map toDeath) bs ds' f → deathOf res = f →
+    ∃ regs', c05Walk res bs regs = (true, regs') ∧ ds' = regs'.map toDeath ∧ (∀ r ∈ regs', Inv r) := by
+  intro bs
+  induction bs with
+  | nil =>
+    intro regs ds' f hinv ht hd
+    cases ht
+    exact ⟨regs, by simp [c05Walk, hd], rfl, hinv⟩
+  | cons d ds ih =>
+    intro regs ds' f hinv ht hd
+    cases ht with
+    | ok _ _ _ _ _ hc hrest =>
+      rw [chk_invariant] at hrest
+      have hnew : ∀ r ∈ regs, r.fired = false → r.pat.search (r.since ++ d) = none :=
+        fun r hr hf => no_new_occ regs d r hr (hinv r hr) hf hc
+      have hdue : (regs.map (ext d)).any (fun r => !r.fired && r.occurs) = false := by
+        rw [List.any_eq_false]
+        intro r1 hr1
+        obtain ⟨r, hr, rfl⟩ := List.mem_map.mp hr1
+        cases hf : r.fired with
+        | true => simp [hf]
+        | false => simp [Reg.occurs, hnew r hr hf, hf]
+      have hinv1 : ∀ r1 ∈ regs.map (ext d), Inv r1 := by
+        intro r1 hr1
+        obtain ⟨r, hr, rfl⟩ := List.mem_map.mp hr1
+        exact ⟨(hinv r hr).1, fun hf => hnew r hr hf⟩
+      rw [c05Walk_cons, hdue]
+      simp only [Bool.false_eq_true, if_false]
+      cases ds with
+      | nil =>
+        cases hrest
+        rw [hd]
+        exact ⟨_, rfl, rfl, hinv1⟩
+      | cons d2 ds2 =>
+        simp only [List.isEmpty_cons, Bool.false_eq_true, if_false]
+        exact ih _ _ _ hinv1 hrest hd
+    | fire _ _ x hc =>
+      obtain ⟨e, m⟩ := x
+      have hj := justified_of regs d e m hinv hc
+      rw [c05Walk_cons, hd, chk_invariant]
+      simp only [List.isEmpty_nil, Bool.true_and, if_true, hj]
+      cases hdue : (regs.map (ext d)).any (fun r => !r.fired && r.occurs) with
+      | true =>
+        simp only [if_true]
+        refine ⟨_, rfl, ?_, ?_⟩
+        · simp only [List.map_map]
+          exact List.map_congr_left (fun r _ => rfl)
+        · intro r2 hr2
+          obtain ⟨r1, hr1, rfl⟩ := List.mem_map.mp hr2
+          obtain ⟨r, hr, rfl⟩ := List.mem_map.mp hr1
+          refine ⟨(hinv r hr).1, fun hf => ?_⟩
+          simp only [Bool.or_eq_false_iff] at hf
+          have := hf.2
+          unfold Reg.occurs at this
+          cases hs : (ext d r).pat.search (ext d r).since with
+          | none => rfl
+          | some v => rw [hs] at this; simp at this
+      | false =>
+        simp only [Bool.false_eq_true, if_false]
+        refine ⟨_, rfl, rfl, ?_⟩
+        intro r1 hr1
+        have hnd := (List.any_eq_false.mp hdue) r1 hr1
+        obtain ⟨r, hr, rfl⟩ := List.mem_map.mp hr1
+        refine ⟨(hinv r hr).1, fun hf => ?_⟩
+        simp only [hf, Bool.not_false, Bool.true_and] at hnd
+        unfold Reg.occurs at hnd
+        cases hs : (ext d r).pat.search (ext d r).since with
+        | none => rfl
+        | some v => rw [hs] at hnd; simp at hnd
+
+/-! ### operations -/
+
+/-- the monitor and the model are in step -/
+structure Rel (m : DeathMon) (r : RunSt) : Prop where
+  deaths : r.st.deaths = m.regs.map toDeath
+  frames : m.frames = r.deaths
+  next : m.next = r.st.nextDeath
+  inv : ∀ reg ∈ m.regs, Inv reg
+
+/-- the death strings an operation registers are admissible -/
+def opDeathOk : Op → Prop
+  | .deathEnter p _ => PatOk p
+  | .deathAdd p _ => PatOk p
+  | _ => True
+
+theorem deathOf_err (e : Exc) : deathOf (.err e) = excDeath e := by cases e <;> rfl
+
+theorem deathOf_chunks (cs : List Bytes) (e : Option Exc) : deathOf (.chunks cs e) = e.bind excDeath := by
+  cases e with
+  | none => rfl
+  | some e => cases e <;> rfl
+
+/-- the run state an operation starts from inside `obsOp`: logs cut -/
+def cutR (r : RunSt) : RunSt := { r with st := cut r.st }
+
+/-- an admissible string does not occur in the empty history -/
+theorem search_nil (p : Pat) (hp : PatOk p) : p.search [] = none := by
+  cases hs : p.search [] with
+  | none => rfl
+  | some v =>
+    obtain ⟨a, e⟩ := v
+    obtain ⟨_, he, hocc⟩ := search_occ p hp [] a e hs
+    exact absurd (by simp) (occ_ne p hp _ hocc)
+
+/-- a read-type operation: the monitor walks the deliveries -/
+theorem step_read (m : DeathMon) (r : RunSt) (op : Op) (hrel : Rel m r)
+    (hnd : ∀ o, c05 m op o = ((c05Walk o.res (delivered o) m.regs).1,
+      { m with regs := (c05Walk o.res (delivered o) m.regs).2 }))
+    (hdt : DT (cut r.st) (runOp op (cutR r)).2.st (deathOf (runOp op (cutR r)).1))
+    (hfr : (runOp op (cutR r)).2.deaths = r.deaths) :
+    (c05 m op (obsOp op r).1).1 = true ∧ Rel (c05 m op (obsOp op r).1).2 (obsOp op r).2 := by
+  obtain ⟨recs, hr, hn, ht⟩ := hdt
+  have hreads : (obsOp op r).1.reads = recs := by
+    show (runOp op (cutR r)).2.st.reads = recs
+    rw [hr]; rfl
+  have hdel : delivered (obsOp op r).1 = dataOf recs := by
+    unfold delivered; rw [hreads]; rfl
+  have hd0 : (cut r.st).deaths = m.regs.map toDeath := hrel.deaths
+  rw [hd0] at ht
+  obtain ⟨regs', hw, hds, hinv'⟩ := walk (obsOp op r).1.res (dataOf recs) m.regs _ _ hrel.inv ht rfl
+  rw [hnd, hdel, hw]
+  exact ⟨rfl, ⟨hds, hrel.frames.trans hfr.symm, hrel.next.trans hn.symm, hinv'⟩⟩
+
+/-- an operation that neither reads nor touches the registrations -/
+theorem step_quiet (m : DeathMon) (r : RunSt) (op : Op) (hrel : Rel m r)
+    (hnd : ∀ o, c05 m op o = ((deathOf o.res).isNone, m))
+    (hq : Quiet (cut r.st) (runOp op (cutR r)).2.st)
+    (hres : deathOf (runOp op (cutR r)).1 = none)
+    (hfr : (runOp op (cutR r)).2.deaths = r.deaths) :
+    (c05 m op (obsOp op r).1).1 = true ∧ Rel (c05 m op (obsOp op r).1).2 (obsOp op r).2 := by
+  rw [hnd]
+  have hres' : deathOf (obsOp op r).1.res = none := hres
+  rw [hres']
+  refine ⟨rfl, ⟨?_, hrel.frames.trans hfr.symm, hrel.next.trans hq.2.2.symm, hrel.inv⟩⟩
+  show (runOp op (cutR r)).2.st.deaths = _
+  rw [hq.2.1]; exact hrel.deaths
+
+theorem ofUnit_death (x : Res Unit) : deathOf (ofUnit x).1 = resDeath x.1 ∧ (ofUnit x).2 = x.2 := by
+  obtain ⟨res, s⟩ := x
+  cases res with
+  | ok u => exact ⟨rfl, rfl⟩
+  | error e => exact ⟨deathOf_err e, rfl⟩
+
+/-- operations that change the set of registrations -/
+def isDeathOp : Op → Bool
+  | .deathEnter _ _ | .deathAdd _ _ | .deathExit => true
+  | _ => false
+
+/-- **SCOPING (1).**  An operation that is neither a read nor a registration / de-registration
+    reads nothing, leaves the registrations (rings included) and the open `with` frames alone
+    and never raises a death-string exception. -/
+theorem runOp_quiet (r : RunSt) (op : Op) (h1 : isReadOp op = false) (h2 : isDeathOp op = false) :
+    Quiet (cut r.st) (runOp op (cutR r)).2.st ∧ deathOf (runOp op (cutR r)).1 = none
+      ∧ (runOp op (cutR r)).2.deaths = r.deaths := by
+  cases op with
+  | setPrompt p => exact ⟨⟨rfl, rfl, rfl⟩, rfl, rfl⟩
+  | promptEnter p => exact ⟨⟨rfl, rfl, rfl⟩, rfl, rfl⟩
+  | promptExit =>
+    simp only [runOp, cutR]
+    cases r.prompts <;> exact ⟨⟨rfl, rfl, rfl⟩, rfl, rfl⟩
+  | setBlacklist b => exact ⟨⟨rfl, rfl, rfl⟩, rfl, rfl⟩
+  | setSlow d c => exact ⟨⟨rfl, rfl, rfl⟩, rfl, rfl⟩
+  | streamEnter id sp => exact ⟨⟨rfl, rfl, rfl⟩, rfl, rfl⟩
+  | streamExit =>
+    simp only [runOp, cutR]
+    cases r.streams <;> exact ⟨⟨rfl, rfl, rfl⟩, rfl, rfl⟩
+  | sleep n => exact ⟨⟨rfl, rfl, rfl⟩, rfl, rfl⟩
+  | write b ign =>
+    have h := write_quiet b ign (cut r.st)
+    have hu := ofUnit_death (write b ign (cut r.st))
+    simp only [runOp, cutR, hu.1, hu.2]
+    exact ⟨h.1, h.2, by first | rfl | trivial⟩
+  | sendcontrol n =>
+    have h := sendcontrol_quiet n (cut r.st)
+    have hu := ofUnit_death (sendcontrol n (cut r.st))
+    simp only [runOp, cutR, hu.1, hu.2]
+    exact ⟨h.1, h.2, by first | rfl | trivial⟩
+  | send b rb t ign =>
+    cases rb with
+    | true => simp [isReadOp] at h1
+    | false =>
+      have h := send_quiet b t ign (cut r.st)
+      have hu := ofUnit_death (send b false t ign (cut r.st))
+      simp only [runOp, cutR, hu.1, hu.2]
+      exact ⟨h.1, h.2, by first | rfl | trivial⟩
+  | sendline b rb t =>
+    cases rb with
+    | true => simp [isReadOp] at h1
+    | false =>
+      have h := send_quiet (b ++ [13]) t false (cut r.st)
+      have hu := ofUnit_death (sendline b false t (cut r.st))
+      simp only [runOp, cutR, hu.1, hu.2]
+      exact ⟨h.1, h.2, by first | rfl | trivial⟩
+  | read n t => simp [isReadOp] at h1
+  | readIter mx t k => simp [isReadOp] at h1
+  | readline e t => simp [isReadOp] at h1
+  | expect ps t => simp [isReadOp] at h1
+  | rup p t => simp [isReadOp] at h1
+  | rut t => simp [isReadOp] at h1
+  | deathEnter p e => simp [isDeathOp] at h2
+  | deathAdd p e => simp [isDeathOp] at h2
+  | deathExit => simp [isDeathOp] at h2
+
+/-- **every read-type operation funnels every delivered piece through `_check` exactly once**,
+    in order, stops at the first delivery for which `_check` reports a match, and raises
+    exactly that match (`DT` / `DTrace`); the open `with` frames are left alone. -/
+theorem runOp_read (r : RunSt) (op : Op) (h1 : isReadOp op = true) :
+    DT (cut r.st) (runOp op (cutR r)).2.st (deathOf (runOp op (cutR r)).1)
+      ∧ (runOp op (cutR r)).2.deaths = r.deaths := by
+  cases op with
+  | send b rb t ign =>
+    cases rb with
+    | false => simp [isReadOp] at h1
+    | true =>
+      have hu := ofUnit_death (send b true t ign (cut r.st))
+      have h := send_dt b true t ign (cut r.st)
+      simp only [runOp, cutR, hu.1, hu.2]
+      exact ⟨h, by first | rfl | trivial⟩
+  | sendline b rb t =>
+    cases rb with
+    | false => simp [isReadOp] at h1
+    | true =>
+      have hu := ofUnit_death (sendline b true t (cut r.st))
+      have h := send_dt (b ++ [13]) true t false (cut r.st)
+      simp only [runOp, cutR, hu.1, hu.2]
+      exact ⟨h, by first | rfl | trivial⟩
+  | read n t =>
+    have h := read_dt n t (cut r.st)
+    simp only [runOp, cutR]
+    generalize Chan.read n t (cut r.st) = out at h
+    obtain ⟨res, s'⟩ := out
+    cases res with
+    | ok b => exact ⟨h, by first | rfl | trivial⟩
+    | error e => exact ⟨by rw [deathOf_err]; exact h, by first | rfl | trivial⟩
+  | readIter mx t k =>
+    have h := riTake_dt (fuelFor (cut r.st)) k (riStart mx t (cut r.st)) (cut r.st) []
+    simp only [runOp, cutR, deathOf_chunks]
+    exact ⟨h, by first | rfl | trivial⟩
+  | readline e t =>
+    have h := readlineLoop_dt (fuelFor (cut r.st)) e [] (cut r.st).now t (cut r.st)
+    simp only [runOp, cutR, readline]
+    generalize readlineLoop (fuelFor (cut r.st)) e [] (cut r.st).now t (cut r.st) = out at h
+    obtain ⟨res, s'⟩ := out
+    cases res with
+    | ok b => exact ⟨h, by first | rfl | trivial⟩
+    | error e => exact ⟨by rw [deathOf_err]; exact h, by first | rfl | trivial⟩
+  | expect ps t =>
+    have h := expectLoop_dt (fuelFor (cut r.st)) ps [] (riStart none t (cut r.st)) (cut r.st)
+    simp only [runOp, cutR, expect]
+    generalize expectLoop (fuelFor (cut r.st)) ps [] (riStart none t (cut r.st)) (cut r.st) = out at h
+    obtain ⟨res, s'⟩ := out
+    cases res with
+    | ok b => exact ⟨h, by first | rfl | trivial⟩
+    | error e => exact ⟨by rw [deathOf_err]; exact h, by first | rfl | trivial⟩
+  | rup p t =>
+    have h := readUntilPrompt_dt p t (cut r.st)
+    simp only [runOp, cutR]
+    generalize readUntilPrompt p t (cut r.st) = out at h
+    obtain ⟨res, s'⟩ := out
+    cases res with
+    | ok b => exact ⟨h, by first | rfl | trivial⟩
+    | error e => exact ⟨by rw [deathOf_err]; exact h, by first | rfl | trivial⟩
+  | rut t =>
+    have h := readUntilTimeout_dt t (cut r.st)
+    simp only [runOp, cutR]
+    generalize readUntilTimeout t (cut r.st) = out at h
+    obtain ⟨res, s'⟩ := out
+    cases res with
+    | ok b => exact ⟨h, by first | rfl | trivial⟩
+    | error e => exact ⟨by rw [deathOf_err]; exact h, by first | rfl | trivial⟩
+  | setPrompt p => simp [isReadOp] at h1
+  | promptEnter p => simp [isReadOp] at h1
+  | promptExit => simp [isReadOp] at h1
+  | setBlacklist b => simp [isReadOp] at h1
+  | setSlow d c => simp [isReadOp] at h1
+  | streamEnter id sp => simp [isReadOp] at h1
+  | streamExit => simp [isReadOp] at h1
+  | sleep n => simp [isReadOp] at h1
+  | write b ign => simp [isReadOp] at h1
+  | sendcontrol n => simp [isReadOp] at h1
+  | deathEnter p e => simp [isReadOp] at h1
+  | deathAdd p e => simp [isReadOp] at h1
+  | deathExit => simp [isReadOp] at h1
+
+/-- **SCOPING (2).**  `with_death_string` entry / `add_death_string` add one registration with
+    an empty ring (and a fresh id) in front; nothing else changes. -/
+theorem deathEnter_deaths (p : Pat) (e : Nat) (s : St) :
+    (Chan.deathEnter p e s).1 = s.nextDeath
+      ∧ (Chan.deathEnter p e s).2.deaths = { id := s.nextDeath, pat := p, exc := e, ring := [] } :: s.deaths
+      ∧ (Chan.deathEnter p e s).2.nextDeath = s.nextDeath + 1 := ⟨rfl, rfl, rfl⟩
+
+/-- **SCOPING (3).**  `with_death_string` exit removes exactly its own registration; the rings
+    of the others are untouched. -/
+theorem deathExit_deaths (id : Nat) (s : St) :
+    (Chan.deathExit id s).deaths = s.deaths.filter (·.id != id)
+      ∧ (Chan.deathExit id s).nextDeath = s.nextDeath := ⟨rfl, rfl⟩
+
+theorem c05_of_read (m : DeathMon) (op : Op) (h1 : isReadOp op = true) (o : OpObs) :
+    c05 m op o = ((c05Walk o.res (delivered o) m.regs).1,
+      { m with regs := (c05Walk o.res (delivered o) m.regs).2 }) := by
+  cases op with
+  | send b rb t ign => cases rb with
+    | false => simp [isReadOp] at h1
+    | true => rfl
+  | sendline b rb t => cases rb with
+    | false => simp [isReadOp] at h1
+    | true => rfl
+  | read n t => rfl
+  | readIter mx t k => rfl
+  | readline e t => rfl
+  | expect ps t => rfl
+  | rup p t => rfl
+  | rut t => rfl
+  | setPrompt p => simp [isReadOp] at h1
+  | promptEnter p => simp [isReadOp] at h1
+  | promptExit => simp [isReadOp] at h1
+  | setBlacklist b => simp [isReadOp] at h1
+  | setSlow d c => simp [isReadOp] at h1
+  | streamEnter id sp => simp [isReadOp] at h1
+  | streamExit => simp [isReadOp] at h1
+  | sleep n => simp [isReadOp] at h1
+  | write b ign => simp [isReadOp] at h1
+  | sendcontrol n => simp [isReadOp] at h1
+  | deathEnter p e => simp [isReadOp] at h1
+  | deathAdd p e => simp [isReadOp] at h1
+  | deathExit => simp [isReadOp] at h1
+
+theorem c05_of_quiet (m : DeathMon) (op : Op) (h1 : isReadOp op = false) (h2 : isDeathOp op = false) (o : OpObs) :
+    c05 m op o = ((deathOf o.res).isNone, m) := by
+  cases op with
+  | send b rb t ign => cases rb with
+    | true => simp [isReadOp] at h1
+    | false => rfl
+  | sendline b rb t => cases rb with
+    | true => simp [isReadOp] at h1
+    | false => rfl
+  | read n t => simp [isReadOp] at h1
+  | readIter mx t k => simp [isReadOp] at h1
+  | readline e t => simp [isReadOp] at h1
+  | expect ps t => simp [isReadOp] at h1
+  | rup p t => simp [isReadOp] at h1
+  | rut t => simp [isReadOp] at h1
+  | setPrompt p => rfl
+  | promptEnter p => rfl
+  | promptExit => rfl
+  | setBlacklist b => rfl
+  | setSlow d c => rfl
+  | streamEnter id sp => rfl
+  | streamExit => rfl
+  | sleep n => rfl
+  | write b ign => rfl
+  | sendcontrol n => rfl
+  | deathEnter p e => simp [isDeathOp] at h2
+  | deathAdd p e => simp [isDeathOp] at h2
+  | deathExit => simp [isDeathOp] at h2
+
+/-- **one operation**: the monitor accepts the observation of the model and stays in step -/
+theorem c05_step (m : DeathMon) (r : RunSt) (op : Op) (hrel : Rel m r) (hop : opDeathOk op) :
+    (c05 m op (obsOp op r).1).1 = true ∧ Rel (c05 m op (obsOp op r).1).2 (obsOp op r).2 := by
+  cases hread : isReadOp op with
+  | true =>
+    have h := runOp_read r op hread
+    exact step_read m r op hrel (c05_of_read m op hread) h.1 h.2
+  | false =>
+  cases hdeath : isDeathOp op with
+  | false =>
+    have h := runOp_quiet r op hread hdeath
+    exact step_quiet m r op hrel (c05_of_quiet m op hread hdeath) h.1 h.2.1 h.2.2
+  | true =>
+  cases op with
+  | deathEnter p e =>
+    refine ⟨rfl, ⟨?_, ?_, ?_, ?_⟩⟩
+    · show _ :: (cut r.st).deaths = _
+      simp only [c05, List.map_cons, toDeath, lastN_nil, hrel.next]
+      congr 1
+      exact hrel.deaths
+    · show _ :: m.frames = _ :: r.deaths
+      rw [hrel.frames, hrel.next]
+    · show m.next + 1 = r.st.nextDeath + 1
+      rw [hrel.next]
+    · intro reg hreg
+      rcases List.mem_cons.mp hreg with rfl | hreg
+      · exact ⟨hop, fun _ => search_nil p hop⟩
+      · exact hrel.inv reg hreg
+  | deathAdd p e =>
+    refine ⟨rfl, ⟨?_, hrel.frames, ?_, ?_⟩⟩
+    · show _ :: (cut r.st).deaths = _
+      simp only [c05, List.map_cons, toDeath, lastN_nil, hrel.next]
+      congr 1
+      exact hrel.deaths
+    · show m.next + 1 = r.st.nextDeath + 1
+      rw [hrel.next]
+    · intro reg hreg
+      rcases List.mem_cons.mp hreg with rfl | hreg
+      · exact ⟨hop, fun _ => search_nil p hop⟩
+      · exact hrel.inv reg hreg
+  | deathExit =>
+    have hfr := hrel.frames
+    cases hd : r.deaths with
+    | nil =>
+      rw [hd] at hfr
+      have hobs : (obsOp .deathExit r).2 = { cutR r with deaths := [] } := by
+        simp only [obsOp, runOp, hd]; rfl
+      have hc : ∀ o, c05 m .deathExit o = (true, m) := by
+        intro o; simp only [c05, hfr]
+      rw [hc, hobs]
+      exact ⟨rfl, ⟨hrel.deaths, hfr, hrel.next, hrel.inv⟩⟩
+    | cons id rest =>
+      rw [hd] at hfr
+      have hobs : (obsOp .deathExit r).2 = { r with st := Chan.deathExit id (cut r.st), deaths := rest } := by
+        simp only [obsOp, runOp, hd]; rfl
+      have hc : ∀ o, c05 m .deathExit o = (true, { m with regs := m.regs.filter (·.id != id), frames := rest }) := by
+        intro o; simp only [c05, hfr]
+      rw [hc, hobs]
+      refine ⟨rfl, ⟨?_, rfl, hrel.next, ?_⟩⟩
+      · show (cut r.st).deaths.filter (·.id != id) = _
+        have : (cut r.st).deaths = m.regs.map toDeath := hrel.deaths
+        rw [this, List.filter_map]
+        rfl
+      · intro reg hreg
+        exact hrel.inv reg (List.mem_filter.mp hreg).1
+  | setPrompt p => simp [isDeathOp] at hdeath
+  | promptEnter p => simp [isDeathOp] at hdeath
+  | promptExit => simp [isDeathOp] at hdeath
+  | setBlacklist b => simp [isDeathOp] at hdeath
+  | setSlow d c => simp [isDeathOp] at hdeath
+  | streamEnter id sp => simp [isDeathOp] at hdeath
+  | streamExit => simp [isDeathOp] at hdeath
+  | sleep n => simp [isDeathOp] at hdeath
+  | write b ign => simp [isDeathOp] at hdeath
+  | sendcontrol n => simp [isDeathOp] at hdeath
+  | send b rb t ign => simp [isDeathOp] at hdeath
+  | sendline b rb t => simp [isDeathOp] at hdeath
+  | read n t => simp [isDeathOp] at hdeath
+  | readIter mx t k => simp [isDeathOp] at hdeath
+  | readline e t => simp [isDeathOp] at hdeath
+  | expect ps t => simp [isDeathOp] at hdeath
+  | rup p t => simp [isDeathOp] at hdeath
+  | rut t => simp [isDeathOp] at hdeath
+
+/-! ### `Channel._check` on a channel state (the ring-buffer theorem) -/
+
+/-- **INVARIANT.**  If every registration's ring equals the last `min (2 * pat.len) |since|`
+    bytes of the data `since` received since its registration (`s.deaths = regs.map toDeath`),
+    then after `_check incoming` every ring equals the last `min (2 * pat.len) |since ++ incoming|`
+    bytes of `since ++ incoming` — whether or not a match was found (all windows are processed);
+    ids, strings and exception tags are unchanged. -/
+theorem check_invariant (regs : List Reg) (s : St) (incoming : Bytes) (h : s.deaths = regs.map toDeath) :
+    (check incoming s).2.deaths = (regs.map (ext incoming)).map toDeath := by
+  rw [(check_deaths incoming s).1, h, chk_invariant]
+
+/-- **COMPLETENESS.**  If the string of some registration (admissible: non-empty literal, or
+    anchor-free non-nullable regex) occurs in `since ++ incoming` with an occurrence `u` that
+    ends inside `incoming`, then `_check incoming` raises a death-string exception. -/
+theorem check_complete (regs : List Reg) (s : St) (incoming : Bytes) (h : s.deaths = regs.map toDeath)
+    (r : Reg) (hr : r ∈ regs) (hp : PatOk r.pat) (x u y : Bytes) (hu : Occ r.pat u)
+    (heq : r.since ++ incoming = x ++ u ++ y) (hy : y.length < incoming.length) :
+    ∃ e m, (check incoming s).1 = .error (.death e m) := by
+  have hc := chk_complete regs incoming r hr hp x u y hu heq hy
+  rw [check_eq, h]
+  cases hv : (chk (regs.map toDeath) incoming).1 with
+  | none => rw [hv] at hc; simp at hc
+  | some v => exact ⟨v.1, v.2, rfl⟩
+
+/-- completeness for a literal death string `p` (length ≥ 1) -/
+theorem check_complete_lit (regs : List Reg) (s : St) (incoming : Bytes) (h : s.deaths = regs.map toDeath)
+    (r : Reg) (hr : r ∈ regs) (p : Bytes) (hpat : r.pat = .lit p) (hne : p ≠ []) (x y : Bytes)
+    (heq : r.since ++ incoming = x ++ p ++ y) (hy : y.length < incoming.length) :
+    ∃ e m, (check incoming s).1 = .error (.death e m) :=
+  check_complete regs s incoming h r hr (by rw [hpat]; exact hne) x p y (by rw [hpat]; rfl) heq hy
+
+/-- **SOUNDNESS.**  If `_check incoming` raises `.death e m` then some registration with
+    exception tag `e` has its string occurring in its `since ++ incoming`, and `m` is that
+    occurrence. -/
+theorem check_sound (regs : List Reg) (s : St) (incoming : Bytes) (h : s.deaths = regs.map toDeath)
+    (e : Nat) (m : Bytes) (hc : (check incoming s).1 = .error (.death e m)) :
+    ∃ r ∈ regs, r.exc = e ∧ (PatOk r.pat → Occ r.pat m ∧ ∃ x y, r.since ++ incoming = x ++ m ++ y) := by
+  have h1 := check_res incoming s
+  rw [hc, h] at h1
+  exact chk_sound regs incoming e m h1.symm
+
+/-- soundness when the registrations are non-empty literals: `m` is the string itself -/
+theorem check_sound_lit (regs : List Reg) (s : St) (incoming : Bytes) (h : s.deaths = regs.map toDeath)
+    (hlit : ∀ r ∈ regs, ∃ p, r.pat = .lit p ∧ p ≠ [])
+    (e : Nat) (m : Bytes) (hc : (check incoming s).1 = .error (.death e m)) :
+    ∃ r ∈ regs, r.exc = e ∧ r.pat = .lit m ∧ ∃ x y, r.since ++ incoming = x ++ m ++ y := by
+  obtain ⟨r, hr, he, hocc⟩ := check_sound regs s incoming h e m hc
+  obtain ⟨p, hp, hne⟩ := hlit r hr
+  obtain ⟨ho, hxy⟩ := hocc (by rw [hp]; exact hne)
+  rw [hp] at ho
+  have : m = p := occ_lit p m ho
+  subst this
+  exact ⟨r, hr, he, hp, hxy⟩
+
+/-! ### whole cases -/
+
+theorem run_spec : ∀ (ops : List Op) (m : DeathMon) (r : RunSt), Rel m r → (∀ op ∈ ops, opDeathOk op) →
+    foldOpsM c05 m ops (runOps ops r).1 = true := by
+  intro ops
+  induction ops with
+  | nil => intro m r _ _; rfl
+  | cons op ops ih =>
+    intro m r hrel hops
+    obtain ⟨h1, h2⟩ := c05_step m r op hrel (hops op (List.mem_cons_self ..))
+    rw [(ChanCase.runOps_cons op ops r).1]
+    simp only [foldOpsM, h1, Bool.true_and]
+    exact ih _ _ h2 (fun o ho => hops o (List.mem_cons_of_mem _ ho))
+
+theorem rel_init (c : Case) : Rel {} (initSt c) := ⟨rfl, rfl, rfl, fun _ h => by simp at h⟩
+
+/-- **C05 (whole case)** for admissible death strings (`PatOk`): non-empty literals, and
+    anchor-free regexes that do not match the empty word. -/
+theorem case_spec_ok (c : Case) (h : ∀ op ∈ c.ops, opDeathOk op) : Spec.C05 c (Chan.run c) = true := by
+  unfold Spec.C05 Chan.run
+  simp only
+  exact run_spec c.ops {} (initSt c) (rel_init c) h
+
+/-! ### decidable side conditions -/
+
+/-- admissible death strings, decidably: a non-empty literal, or a regex without `\Z` that does
+    not match the empty input -/
+def patOkB : Pat → Bool
+  | .lit b => !b.isEmpty
+  | .re r => r.noEos && (r.search []).isNone
+
+theorem patOk_of (p : Pat) (h : patOkB p = true) : PatOk p := by
+  cases p with
+  | lit b => simpa [patOkB, PatOk] using h
+  | re r =>
+    simp only [patOkB, Bool.and_eq_true] at h
+    refine ⟨h.1, fun hl => ?_⟩
+    have := Re.search_complete r h.1 [] [] [] hl
+    simp only [List.append_nil] at this
+    cases hs : r.search [] with
+    | none => rw [hs] at this; simp at this
+    | some v => rw [hs] at h; simp at h
+
+def deathOpOk : Op → Bool
+  | .deathEnter p _ | .deathAdd p _ => patOkB p
+  | _ => true
+
+def litOpOk : Op → Bool
+  | .deathEnter (.lit b) _ | .deathAdd (.lit b) _ => !b.isEmpty
+  | .deathEnter (.re _) _ | .deathAdd (.re _) _ => false
+  | _ => true
+
+theorem opDeathOk_of (op : Op) (h : deathOpOk op = true) : opDeathOk op := by
+  cases op with
+  | deathEnter p e => exact patOk_of p h
+  | deathAdd p e => exact patOk_of p h
+  | _ => trivial
+
+theorem deathOpOk_of_lit (op : Op) (h : litOpOk op = true) : deathOpOk op = true := by
+  cases op with
+  | deathEnter p e => cases p with
+    | lit b => exact h
+    | re r => simp [litOpOk] at h
+  | deathAdd p e => cases p with
+    | lit b => exact h
+    | re r => simp [litOpOk] at h
+  | _ => rfl
+
+/-- **C05 (whole case).**  For every case — any script, chunk size, timeouts, any interleaving
+    of reads, writes, prompt / stream / death-string scopes — whose death strings are
+    non-empty literals or anchor-free regexes that do not match the empty input: a registered
+    death string aborts the read in which its first occurrence completes, never earlier, with
+    the exception of a string that has occurred, and never after its scope was left. -/
+theorem case_spec (c : Case) (h : c.ops.all deathOpOk = true) : Spec.C05 c (Chan.run c) = true :=
+  case_spec_ok c (fun op hop => opDeathOk_of op (List.all_eq_true.mp h op hop))
+
+/-- **C05 (whole case), literal death strings of length ≥ 1.** -/
+theorem case_spec_lit (c : Case) (h : c.ops.all litOpOk = true) : Spec.C05 c (Chan.run c) = true :=
+  case_spec c (List.all_eq_true.mpr fun op hop => deathOpOk_of_lit op (List.all_eq_true.mp h op hop))
+
+/-! ### non-vacuity -/
+
+/-- the F4 witness: string "AB", one piece "xxxABxxx" (the occurrence straddles two scan windows) -/
+def f4Case : Case :=
+  { chunk := 4096, slice := 64, script := [⟨0, [120, 120, 120, 65, 66, 120, 120, 120]⟩], accept := [],
+    ops := [.deathEnter (.lit [65, 66]) 7, .read none (some 1), .deathExit] }
+
+example : f4Case.ops.all litOpOk = true := by decide
+
+/-- … on which the model does raise, in the read that delivers the piece -/
+example : ((Chan.run f4Case).1.map (·.res) == [.unit, .err (.death 7 [65, 66]), .unit]) = true := by decide
+
+example : Spec.C05 f4Case (Chan.run f4Case) = true := case_spec_lit f4Case (by decide)
+
+/-- the hypotheses of `check_complete` are satisfiable: "x" was received since the registration
+    of "AB", then "xxABxxx" arrives — the windows are "xx", "AB", "xx", "x" but the ring also
+    works when the occurrence is cut: see `f4Case`, where the windows are "xx", "xA", "Bx", "xx" -/
+def f4Reg : Reg := { id := 0, pat := .lit [65, 66], exc := 7, since := [120] }
+
+example : ∃ e m, (check [120, 120, 65, 66, 120, 120, 120] { deaths := [toDeath f4Reg] }).1
+    = .error (.death e m) :=
+  check_complete [f4Reg] { deaths := [toDeath f4Reg] } [120, 120, 65, 66, 120, 120, 120] rfl f4Reg
+    (List.mem_singleton.mpr rfl) (by simp [PatOk, f4Reg]) [120, 120, 120] [65, 66] [120, 120, 120] rfl rfl
+    (by decide)
+
+/-- a regex death string `A[Bx]` is admissible -/
+example : patOkB (.re (.seq (Re.lit1 65) (.cls false [(66, 66), (120, 120)]))) = true := by decide
+
+/-! ### the side conditions are necessary (`Spec.C05` is false on the model otherwise) -/
+
+/-- an end-anchored regex `A\Z` matches in a ring that is the history up to a scan window, but
+    not in the data of the whole delivery: the model raises, the monitor finds no occurrence -/
+def eosCase : Case :=
+  { chunk := 8, slice := 64, script := [⟨0, [120, 65, 66]⟩], accept := [],
+    ops := [.deathEnter (.re (.seq (Re.lit1 65) .eos)) 7, .read none (some 1)] }
+
+example : Spec.C05 eosCase (Chan.run eosCase) = false := by decide
+
+/-- a regex that matches the empty word (`A?`) "occurs" in an empty delivery (`read(0)`), but
+    `_check` scans no window of an empty delivery -/
+def nullCase : Case :=
+  { chunk := 8, slice := 64, script := [⟨0, [120, 65, 66]⟩], accept := [],
+    ops := [.deathEnter (.re (.rep (Re.lit1 65) 0 1)) 7, .read (some 0) (some 1)] }
+
+example : Spec.C05 nullCase (Chan.run nullCase) = false := by decide
+
+/-- the same for the empty literal -/
+def emptyLitCase : Case :=
+  { chunk := 8, slice := 64, script := [⟨0, [120, 65, 66]⟩], accept := [],
+    ops := [.deathEnter (.lit []) 7, .read (some 0) (some 1)] }
+
+example : Spec.C05 emptyLitCase (Chan.run emptyLitCase) = false := by decide
+
+/-- kept only because `harness/c05.py` still lists it in `THEOREMS`; to be dropped once the
+    harness audits the real theorems (`C05.case_spec` …) -/
 theorem placeholder : True := trivial
+
 end C05
